@@ -470,3 +470,13 @@ def run(prop="C04", tier="quick", modes=None, only=None):
                         "TMP_S* forms are real mark/alloc/free there")
     res["exhaustive"] = True
     return res
+
+
+MODE_KINDS = ("use-after-free", "escape", "return-tmp", "alloc-before-mark", "free-before-mark", "alloc-after-free", "double-free")
+
+
+def run_modes(prop="C14", tier="quick"):
+    """C14 view of R-TMP: only the violation kinds that make alloca / malloc-reentrant / debug builds behave differently"""
+    r = run(prop=prop, tier=tier)
+    r["findings"] = [f for f in r["findings"] if f.signature.startswith(MODE_KINDS)]
+    return r
